@@ -433,4 +433,13 @@ def decide(prop, mod, a, seed, procs, binfo, t0, workdir, native):
 
 
 if __name__ == "__main__":
-    sys.exit(main())
+    try:
+        rc = main()
+    except SystemExit:
+        raise
+    except BaseException as e:  # a failure of the machinery itself is never a verdict about the property
+        import traceback
+        traceback.print_exc()
+        print("INCONCLUSIVE reason=the checker itself failed: %s: %s" % (type(e).__name__, str(e)[:300]))
+        rc = 2
+    sys.exit(rc)
